@@ -121,6 +121,8 @@ type vBed struct {
 	measurements []string
 	fields       []string
 	tagKeys      []string
+	// preWriteModel is set by C18 to the model before a write that races with a backup
+	preWriteModel map[vKey]vVal
 }
 
 const vDB, vRP = "db", "rp"
